@@ -54,24 +54,27 @@ def estimate_minor(
     mutations |= gene.random_mutations
 
     # Filter out low quality mutations
-    def default_filter_fn(cov, mut):
-        # TODO: is this necessary?
-        r = gene.region_at(mut.pos)
-        if mut.op != "_" and not (
-            mut in mutations
-            or (r and r[1][0] == "e")
-            or (r and r[1] in ["utr3", "utr5", "up"])
-        ):
-            return False
-        cond = cov.basic_filter(mut, cn=coverage.profile.cn_max)
-        if mut.op != "_":
-            cond = cond and cov.basic_filter(
-                mut, cn=major_sol.cn_solution.position_cn(mut.pos) + 0.5
-            )
-        return cond
+    def make_filter_fn(cn_solution):
+        def default_filter_fn(cov, mut):
+            # TODO: is this necessary?
+            r = gene.region_at(mut.pos)
+            if mut.op != "_" and not (
+                mut in mutations
+                or (r and r[1][0] == "e")
+                or (r and r[1] in ["utr3", "utr5", "up"])
+            ):
+                return False
+            cond = cov.basic_filter(mut, cn=coverage.profile.cn_max)
+            if mut.op != "_":
+                cond = cond and cov.basic_filter(
+                    mut, cn=cn_solution.position_cn(mut.pos) + 0.5
+                )
+            return cond
 
-    cov = coverage.filtered(Coverage.quality_filter)
-    cov = cov.filtered(default_filter_fn)
+        return default_filter_fn
+
+    quality_cov = coverage.filtered(Coverage.quality_filter)
+    cov = quality_cov.filtered(make_filter_fn(major_sol.cn_solution))
 
     if novel:
         for pos, c in cov._coverage.items():
@@ -93,6 +96,7 @@ def estimate_minor(
     for c in sorted(cn_sols, key=lambda x: x._solution_nice()):
         log.debug("*" * 80)
         majors = [m for m in major_sols if m.cn_solution == c]
+        cov = quality_cov.filtered(make_filter_fn(c))
         _print_candidates(gene, alleles, c, cov, mutations)
         for major_sol in natsorted(majors, key=lambda s: str(s.solution)):
             sols = solve_minor_model(
